@@ -685,16 +685,29 @@ func sameSet(a, b []string) bool {
 	return true
 }
 
-// isStubbed: the harness source carries a `// vh:stubbed` line in the function body.
+// isStubbed: the harness source carries a `// vh:stubbed` line in the function
+// body; a one-line wrapper inherits it from the function it calls.
 func isStubbed(h harnessRef) bool {
 	b, err := os.ReadFile(h.File)
 	if err != nil {
 		return false
 	}
-	lines := strings.Split(string(b), "\n")
+	return stubbedIn(strings.Split(string(b), "\n"), h.Func, 0)
+}
+
+func stubbedIn(lines []string, fn string, depth int) bool {
 	inFn := false
 	for _, l := range lines {
-		if strings.HasPrefix(l, "func "+h.Func+"()") {
+		if !inFn && strings.HasPrefix(l, "func "+fn+"(") {
+			if strings.Contains(l, "// vh:stubbed") {
+				return true
+			}
+			if strings.HasSuffix(strings.TrimSpace(strings.SplitN(l, "//", 2)[0]), "}") {
+				if m := reWrapperCall.FindStringSubmatch(l); m != nil && depth < 3 && m[1] != fn {
+					return stubbedIn(lines, m[1], depth+1)
+				}
+				return false
+			}
 			inFn = true
 			continue
 		}
